@@ -1,5 +1,6 @@
 import OrdModel.Proofs.IndexFlagsChain
 import OrdModel.Proofs.IndexFlagsValid
+import OrdModel.Proofs.IndexFlagsNoIns
 import OrdModel.Proofs.IndexFlagsWitness
 import OrdModel.Index.Valid
 /-
@@ -41,7 +42,8 @@ decidable on a given chain).  Stages: `c15_transaction_step` (one transaction of
 inscription updater commutes with erasing what the optional indexes add),
 `c15_block_step_partial` (one block incl. LostSats accounting and commit),
 `c15_charms_independent_of_sat`, `c15_projection_of_erased`.
-Not covered: inscriptions off (rune results only) — rests on the correspondence streams.
+`c15_runes_only` — inscriptions not indexed: the statement holds with no side condition at all
+(any chain, any activation heights, events included), on the same blocks.
 -/
 namespace Ord.Index
 open Outcome
@@ -139,6 +141,24 @@ theorem c15_addresses_transactions (cfg cfg' : Cfg) (hsame : SameUpToOptionalInd
     projInsRunes st = projInsRunes st' :=
   c15_valid_chain_partial cfg cfg' hsame hi hf chain hv (nullStableFrom_of_noSats cfg hs chain {})
     (nullStableFrom_of_noSats cfg' hs' chain {}) st st' evs evs' h h'
+
+/-- **Inscriptions not indexed (rune results only): C15 holds with no side condition** — any
+chain, any first inscription / rune heights: two configurations that differ only in the three
+optional indexes and both index the chain end with the same rune entries, balances and counters,
+and emit the same events.  (With the sat or address index the UTXO pass runs, but writes only
+the UTXO table, SAT_TO_SATPOINT, the address rows and LostSats; the rune pass reads none of
+them.)  This is about `run` — the same blocks; what each configuration *sees* is `fetchView`. -/
+theorem c15_runes_only (cfg cfg' : Cfg) (hsame : SameUpToOptionalIndexes cfg cfg')
+    (hi : cfg.indexInscriptions = false) (chain : List Block) (st st' : State) (evs evs' : List Event)
+    (h : run cfg chain = .ok (st, evs)) (h' : run cfg' chain = .ok (st', evs')) :
+    projInsRunes st = projInsRunes st' ∧ evs = evs' := by
+  have hi' : cfg'.indexInscriptions = false := hsame.1 ▸ hi
+  have r := run_noIns_sim cfg hi chain st evs h
+  have r' := run_noIns_sim cfg' hi' chain st' evs' h'
+  rw [base_eq_of_same hsame, r'] at r
+  simp only [Outcome.ok.injEq, Prod.mk.injEq] at r
+  refine ⟨?_, r.2.symm⟩
+  rw [← proj_coreW st, ← proj_coreW st', r.1]
 
 /-- the extra hypothesis is vacuous without the sat index … -/
 theorem c15_nullStable_of_noSats (cfg : Cfg) (hs : cfg.indexSats = false) (chain : List Block) (st : State) :
